@@ -598,6 +598,12 @@ func (c *skTc) tieAssign(as *ast.AssignStmt, scoped, rest []ast.Stmt, k []skS) (
 	}
 	call, ok := as.Rhs[0].(*ast.CallExpr)
 	v := c.errVarOf(as)
+	if v == "" && ok && len(as.Lhs) > 0 {
+		// whatever its name: the last result of the call, compared with nil / io.EOF afterwards
+		if id, isId := as.Lhs[len(as.Lhs)-1].(*ast.Ident); isId && id.Name != "_" && c.testedLater(id.Name, scoped, rest) {
+			v = id.Name
+		}
+	}
 	if !ok || v == "" {
 		return nil, false
 	}
@@ -667,6 +673,44 @@ func (c *skTc) tieAssign(as *ast.AssignStmt, scoped, rest []ast.Stmt, k []skS) (
 		out = append(append(out, ios...), skS{kind: "IoE", io: "Check", a: h})
 	}
 	return append(out, okc...), true
+}
+
+// testedLater: one of the statements (or an else-if chain in them) tests `name ==/!= nil` or io.EOF
+func (c *skTc) testedLater(name string, lists ...[]ast.Stmt) bool {
+	found := false
+	var cond func(e ast.Expr)
+	cond = func(e ast.Expr) {
+		switch e := e.(type) {
+		case *ast.ParenExpr:
+			cond(e.X)
+		case *ast.BinaryExpr:
+			if e.Op == token.LAND || e.Op == token.LOR {
+				cond(e.X)
+				cond(e.Y)
+			} else if e.Op == token.EQL || e.Op == token.NEQ {
+				if id, ok := e.X.(*ast.Ident); ok && id.Name == name {
+					if y := c.g.s.text(e.Y); y == "nil" || y == "io.EOF" {
+						found = true
+					}
+				}
+			}
+		}
+	}
+	var ifs func(st ast.Stmt)
+	ifs = func(st ast.Stmt) {
+		if s, ok := st.(*ast.IfStmt); ok {
+			cond(s.Cond)
+			if s.Else != nil {
+				ifs(s.Else)
+			}
+		}
+	}
+	for _, l := range lists {
+		for _, st := range l {
+			ifs(st)
+		}
+	}
+	return found
 }
 
 // errClass: does the returned error expression hold an error?  1 yes, 0 no, -1 unknown
